@@ -9,7 +9,7 @@ package raft
 // ---------------------------------------------------------------------------
 // Ghost models and assumed interface contracts (trusted base)
 
-//@ model LogStore { has map[uint64]bool; ent map[uint64]Log }
+//@ model LogStore { has map[uint64]bool; ent map[uint64]Log; first uint64; last uint64 }
 
 //@ interface LogStore.GetLog(index, log)
 //@   requires lognonnil: log != nil
@@ -18,13 +18,104 @@ package raft
 //@   ensures  notfound: !this.has[index] ==> result != nil
 
 //@ interface LogStore.StoreLogs(logs)
-//@   modifies this.has, this.ent
+//@   requires nonnil:   forall k int :: 0 <= k && k < len(logs) ==> logs[k] != nil
+//@   requires distinct: forall a int, b int :: 0 <= a && a < b && b < len(logs) ==> logs[a].Index != logs[b].Index
+//@   modifies this.has, this.ent, this.first, this.last
 //@   ensures  stored:   result == nil ==> forall k int :: 0 <= k && k < len(logs) ==>
-//@                        this.has[logs[k].Index]
+//@                        this.has[logs[k].Index] && this.ent[logs[k].Index] == *logs[k]
 //@   ensures  others:   result == nil ==> forall i uint64 ::
 //@                        (forall k int :: 0 <= k && k < len(logs) ==> logs[k].Index != i) ==>
 //@                        this.has[i] == old(this.has[i]) && this.ent[i] == old(this.ent[i])
-//@   ensures  atomic:   result != nil ==> this.has == old(this.has) && this.ent == old(this.ent)
+//@   ensures  atomic:   result != nil ==> this.has == old(this.has) && this.ent == old(this.ent) && this.first == old(this.first) && this.last == old(this.last)
+
+//@ interface LogStore.DeleteRange(min, max)
+//@   modifies this.has, this.ent, this.first, this.last
+//@   ensures  deleted:  result == nil ==> forall i uint64 :: this.has[i] == (old(this.has[i]) && !(min <= i && i <= max))
+//@   ensures  kept:     forall i uint64 :: this.has[i] ==> old(this.has[i]) && this.ent[i] == old(this.ent[i])
+//@   ensures  atomic:   result != nil ==> this.has == old(this.has) && this.ent == old(this.ent) && this.first == old(this.first) && this.last == old(this.last)
+
+//@ interface LogStore.FirstIndex()
+//@   modifies nothing
+//@   ensures  value: result1 == nil ==> result0 == this.first
+
+//@ interface LogStore.LastIndex()
+//@   modifies nothing
+//@   ensures  value: result1 == nil ==> result0 == this.last
+
+// ---------------------------------------------------------------------------
+// C19: LogCache
+
+//@ spec func CacheInv(c *LogCache) bool =
+//@   len(c.cache) > 0 && forall j int :: 0 <= j && j < len(c.cache) && c.cache[j] != nil ==>
+//@     c.cache[j].Index % len(c.cache) == j && c.store.has[c.cache[j].Index] && *c.cache[j] == c.store.ent[c.cache[j].Index]
+
+//@ func NewLogCache
+//@   modifies nothing
+//@   ensures  capacity_check: (capacity <= 0) == (result1 != nil)
+//@   ensures  nil_on_error: result1 != nil ==> result0 == nil
+//@   ensures  inv: result1 == nil ==> result0 != nil && isfresh(result0) && result0.store == store && len(result0.cache) == capacity && CacheInv(result0)
+
+//@ func (c *LogCache) GetLog
+//@   requires nonnil: c != nil && log != nil && c.store != nil
+//@   requires inv: CacheInv(c)
+//@   requires noalias: forall j int :: 0 <= j && j < len(c.cache) ==> c.cache[j] != log
+//@   modifies *log
+//@   safe
+//@   ensures  hit_is_current: result == nil ==> c.store.has[idx] && *log == c.store.ent[idx]
+//@   ensures  miss_forwards:  !c.store.has[idx] ==> result != nil
+//@   ensures  inv: CacheInv(c)
+
+//@ func (c *LogCache) StoreLogs
+//@   requires nonnil: c != nil && c.store != nil
+//@   requires inv: CacheInv(c)
+//@   requires lognonnil: forall k int :: 0 <= k && k < len(logs) ==> logs[k] != nil
+//@   requires distinct: forall a int, b int :: 0 <= a && a < b && b < len(logs) ==> logs[a].Index != logs[b].Index
+//@   requires private_cache: arrayof(logs) != arrayof(c.cache)
+//@   modifies c.store.has, c.store.ent, c.store.first, c.store.last, c.cache[*]
+//@   safe
+//@   ensures  stored:   result == nil ==> forall k int :: 0 <= k && k < len(logs) ==>
+//@                        c.store.has[logs[k].Index] && c.store.ent[logs[k].Index] == *logs[k]
+//@   ensures  others:   result == nil ==> forall i uint64 ::
+//@                        (forall k int :: 0 <= k && k < len(logs) ==> logs[k].Index != i) ==>
+//@                        c.store.has[i] == old(c.store.has[i]) && c.store.ent[i] == old(c.store.ent[i])
+//@   ensures  atomic:   result != nil ==> c.store.has == old(c.store.has) && c.store.ent == old(c.store.ent)
+//@   ensures  cache_untouched_on_error: result != nil ==> forall j int :: 0 <= j && j < len(c.cache) ==> c.cache[j] == old(c.cache[j])
+//@   ensures  inv: CacheInv(c)
+//@   loop 1 invariant slots: len(c.cache) > 0 && forall j int ::
+//@       0 <= j && j < len(c.cache) && c.cache[j] != nil ==>
+//@         c.cache[j].Index % len(c.cache) == j &&
+//@         ( (c.store.has[c.cache[j].Index] && *c.cache[j] == c.store.ent[c.cache[j].Index])
+//@           || exists k int :: #i <= k && k < len(logs) && logs[k].Index == c.cache[j].Index )
+
+//@ func (c *LogCache) StoreLog
+//@   requires nonnil: c != nil && log != nil && c.store != nil
+//@   requires inv: CacheInv(c)
+//@   modifies c.store.has, c.store.ent, c.store.first, c.store.last, c.cache[*]
+//@   ensures  stored: result == nil ==> c.store.has[log.Index] && c.store.ent[log.Index] == *log
+//@   ensures  others: result == nil ==> forall i uint64 :: i != log.Index ==>
+//@                        c.store.has[i] == old(c.store.has[i]) && c.store.ent[i] == old(c.store.ent[i])
+//@   ensures  inv: CacheInv(c)
+
+//@ func (c *LogCache) DeleteRange
+//@   requires nonnil: c != nil && c.store != nil
+//@   requires inv: CacheInv(c)
+//@   modifies c.cache, c.store.has, c.store.ent, c.store.first, c.store.last
+//@   safe
+//@   ensures  cleared: forall j int :: 0 <= j && j < len(c.cache) ==> c.cache[j] == nil
+//@   ensures  same_capacity: len(c.cache) == old(len(c.cache))
+//@   ensures  deleted:  result == nil ==> forall i uint64 :: c.store.has[i] == (old(c.store.has[i]) && !(min <= i && i <= max))
+//@   ensures  kept:     forall i uint64 :: c.store.has[i] ==> old(c.store.has[i]) && c.store.ent[i] == old(c.store.ent[i])
+//@   ensures  inv: CacheInv(c)
+
+//@ func (c *LogCache) FirstIndex
+//@   requires nonnil: c != nil && c.store != nil
+//@   modifies nothing
+//@   ensures  forwarded: result1 == nil ==> result0 == c.store.first
+
+//@ func (c *LogCache) LastIndex
+//@   requires nonnil: c != nil && c.store != nil
+//@   modifies nothing
+//@   ensures  forwarded: result1 == nil ==> result0 == c.store.last
 
 // ---------------------------------------------------------------------------
 // C05: commitment
@@ -45,3 +136,49 @@ package raft
 //@   ensures  map_unchanged: card(c.matchIndexes) == old(card(c.matchIndexes))
 //@   loop 1 invariant size: len(matched) == #i && cap(matched) >= #card
 //@   loop 1 invariant gather: forall j int :: 0 <= j && j < #i ==> matched[j] == c.matchIndexes[#key(j)]
+
+//@ func (c *commitment) match
+//@   requires cnonnil: c != nil
+//@   modifies c.matchIndexes[*], c.commitIndex, sent(c.commitCh)
+//@   ensures  nonvoter_ignored: !old(dom(c.matchIndexes, server)) ==>
+//@              c.commitIndex == old(c.commitIndex) &&
+//@              (forall k ServerID :: dom(c.matchIndexes, k) == old(dom(c.matchIndexes, k)) && c.matchIndexes[k] == old(c.matchIndexes[k]))
+//@   ensures  monotone_entry: old(dom(c.matchIndexes, server)) ==>
+//@              c.matchIndexes[server] == max(old(c.matchIndexes[server]), matchIndex)
+//@   ensures  others_unchanged: forall k ServerID :: k != server ==>
+//@              dom(c.matchIndexes, k) == old(dom(c.matchIndexes, k)) && c.matchIndexes[k] == old(c.matchIndexes[k])
+//@   ensures  dom_unchanged: forall k ServerID :: dom(c.matchIndexes, k) == old(dom(c.matchIndexes, k))
+//@   ensures  monotone: c.commitIndex >= old(c.commitIndex)
+//@   ensures  term_rule: c.commitIndex != old(c.commitIndex) ==> c.commitIndex >= c.startIndex
+//@   ensures  same_map: c.matchIndexes == old(c.matchIndexes)
+
+//@ func (c *commitment) getCommitIndex
+//@   requires cnonnil: c != nil
+//@   modifies nothing
+//@   ensures  value: result == c.commitIndex
+
+//@ spec func isVoterAt(cfg Configuration, i int) bool = cfg.Servers[i].Suffrage == Voter
+//@ spec func isVoter(cfg Configuration, id ServerID) bool =
+//@   exists i int :: 0 <= i && i < len(cfg.Servers) && cfg.Servers[i].ID == id && cfg.Servers[i].Suffrage == Voter
+
+//@ func newCommitment
+//@   modifies nothing
+//@   ensures  nonnil: result != nil && isfresh(result)
+//@   ensures  fields: result.commitIndex == 0 && result.startIndex == startIndex && result.commitCh == commitCh
+//@   ensures  dom_is_voter_set: forall id ServerID :: dom(result.matchIndexes, id) == isVoter(configuration, id)
+//@   ensures  all_zero: forall id ServerID :: result.matchIndexes[id] == 0
+//@   loop 1 invariant dom: forall id ServerID :: dom(matchIndexes, id) ==
+//@        (exists i int :: 0 <= i && i < #i && configuration.Servers[i].ID == id && configuration.Servers[i].Suffrage == Voter)
+//@   loop 1 invariant zero: forall id ServerID :: matchIndexes[id] == 0
+
+//@ func (c *commitment) setConfiguration
+//@   requires cnonnil: c != nil
+//@   modifies c.matchIndexes, c.commitIndex, sent(c.commitCh)
+//@   ensures  dom_is_voter_set: forall id ServerID :: dom(c.matchIndexes, id) == isVoter(configuration, id)
+//@   ensures  retained: forall id ServerID :: dom(c.matchIndexes, id) ==> c.matchIndexes[id] == old(c.matchIndexes[id])
+//@   ensures  monotone: c.commitIndex >= old(c.commitIndex)
+//@   ensures  term_rule: c.commitIndex != old(c.commitIndex) ==> c.commitIndex >= c.startIndex
+//@   loop 1 invariant dom: forall id ServerID :: dom(c.matchIndexes, id) ==
+//@        (exists i int :: 0 <= i && i < #i && configuration.Servers[i].ID == id && configuration.Servers[i].Suffrage == Voter)
+//@   loop 1 invariant vals: forall id ServerID :: dom(c.matchIndexes, id) ==> c.matchIndexes[id] == old(c.matchIndexes[id])
+//@   loop 1 invariant fresh: isfresh(c.matchIndexes) && c.commitIndex == old(c.commitIndex)
